@@ -17,6 +17,7 @@ type kxCase struct {
 	LenA, LenB int
 	Klen       int
 	Confirm    bool
+	Mixed      bool // the responder is created with the OPPOSITE confirmation option (seeded change C10-8-1)
 	Hid        int
 	MK         MK
 	Neg        int // which negative scenario follows the honest run (0 = none)
@@ -45,6 +46,11 @@ func TestC10_KeyExchangeSweep(t *testing.T) {
 			c := kxCase{LenA: la, LenB: s - la, Klen: k, Confirm: s%3 != 0, Hid: int(pickHid(s+1, h.Seed)), MK: sweepMasters[s%len(sweepMasters)],
 				Neg: 1 + s%kxNegKinds, Seed: gen.Mix(h.Seed, 0xce, uint64(s))}
 			emit(c)
+			if s%4 == 1 {
+				m := c
+				m.Mixed = true
+				emit(m)
+			}
 			if h.Thorough() {
 				c.Klen = 97 + (s*31)%200
 				c.Confirm = !c.Confirm
@@ -65,6 +71,7 @@ func TestC10_KeyExchangeMix(t *testing.T) {
 			LenA: genUidLen(t) % 400, LenB: genUidLen(t) % 400,
 			Klen:    genLen(t) % 700,
 			Confirm: rapid.Bool().Draw(t, "confirm"),
+			Mixed:   rapid.IntRange(0, 3).Draw(t, "mixed") == 0,
 			Hid:     genHid(t),
 			MK:      genMK(t),
 			Neg:     rapid.IntRange(0, kxNegKinds).Draw(t, "neg"),
@@ -99,9 +106,9 @@ type kxRun struct {
 }
 
 // runKX drives the four protocol steps; tamper may alter what travels.
-func runKX(ua, ub *encUser, idA, idB, peerOfB []byte, hid byte, klen int, confirm bool, seedA, seedB uint64, tamper func(step string, v []byte) []byte) *kxRun {
+func runKX(ua, ub *encUser, idA, idB, peerOfB []byte, hid byte, klen int, confirm, confirmB bool, seedA, seedB uint64, tamper func(step string, v []byte) []byte) *kxRun {
 	ini := ua.key.NewKeyExchange(idA, idB, klen, confirm)
-	rsp := ub.key.NewKeyExchange(idB, peerOfB, klen, confirm)
+	rsp := ub.key.NewKeyExchange(idB, peerOfB, klen, confirmB)
 	defer ini.Destroy()
 	defer rsp.Destroy()
 	out := &kxRun{}
@@ -180,17 +187,26 @@ func checkKX(c kxCase, r *h.Rec) error {
 		return err
 	}
 	seedA, seedB := gen.Mix(c.Seed, 1), gen.Mix(c.Seed, 2)
+	// Each side is created with its own confirmation option: a side sends its
+	// confirmation value iff its own option is on. With mixed options the honest
+	// exchange must still complete with equal keys (completeness); rejection of
+	// altered values is demanded only where both sides confirm.
+	confB := c.Confirm != c.Mixed
+	both := c.Confirm && confB
+	if c.Mixed {
+		r.Label("mixed-confirmation-options")
+	}
 
 	// ---- honest run
-	run := runKX(ua, ub, idA, idB, idA, hid, c.Klen, c.Confirm, seedA, seedB, noTamper)
+	run := runKX(ua, ub, idA, idB, idA, hid, c.Klen, c.Confirm, confB, seedA, seedB, noTamper)
 	if run.err != nil {
 		return fmt.Errorf("honest key exchange failed at %s: %v (lenA=%d lenB=%d klen=%d confirm=%v)", run.errAt, run.err, c.LenA, c.LenB, c.Klen, c.Confirm)
 	}
 	if !bytes.Equal(run.SKA, run.SKB) || len(run.SKA) != c.Klen {
 		return fmt.Errorf("shared keys differ or have the wrong length: SKA=%s SKB=%s klen=%d", h.Hex(run.SKA), h.Hex(run.SKB), c.Klen)
 	}
-	if c.Confirm != (len(run.SB) > 0) || c.Confirm != (len(run.SA) > 0) {
-		return fmt.Errorf("confirmation values present=%v/%v, requested=%v", len(run.SB) > 0, len(run.SA) > 0, c.Confirm)
+	if confB != (len(run.SB) > 0) || c.Confirm != (len(run.SA) > 0) {
+		return fmt.Errorf("confirmation values S_B/S_A present=%v/%v, options of responder/initiator=%v/%v", len(run.SB) > 0, len(run.SA) > 0, confB, c.Confirm)
 	}
 	if len(run.RA) != 65 || run.RA[0] != 4 || len(run.RB) != 65 || run.RB[0] != 4 {
 		return fmt.Errorf("RA/RB are not 04||X||Y: %x %x", run.RA, run.RB)
@@ -214,10 +230,12 @@ func checkKX(c kxCase, r *h.Rec) error {
 			return fmt.Errorf("shared key differs from the model KDF(IDA||IDB||RA||RB||g1||g2||g3, %d) (KDF input %d bytes = %d mod 64): got %s want %s",
 				c.Klen, 1280+c.LenA+c.LenB, (c.LenA+c.LenB)%64, h.Hex(run.SKA), h.Hex(mo.SK))
 		}
-		if c.Confirm {
+		if confB {
 			if !bytes.Equal(run.SB, mo.SB) {
 				return fmt.Errorf("S_B differs from the model Hash(0x82||g1||Hash(g2||g3||IDA||IDB||RA||RB)): got %x want %x", run.SB, mo.SB)
 			}
+		}
+		if c.Confirm {
 			if !bytes.Equal(run.SA, mo.SA) {
 				return fmt.Errorf("S_A differs from the model Hash(0x83||g1||Hash(g2||g3||IDA||IDB||RA||RB)): got %x want %x", run.SA, mo.SA)
 			}
@@ -277,10 +295,10 @@ func checkKX(c kxCase, r *h.Rec) error {
 	}
 	switch c.Neg {
 	case 1:
-		if !c.Confirm {
+		if !both {
 			return nil
 		}
-		n := runKX(ua, ub, idA, idB, idA, hid, c.Klen, true, seedA, seedB, func(s string, v []byte) []byte {
+		n := runKX(ua, ub, idA, idB, idA, hid, c.Klen, true, true, seedA, seedB, func(s string, v []byte) []byte {
 			if s == "SB" {
 				return flip(v)
 			}
@@ -288,10 +306,10 @@ func checkKX(c kxCase, r *h.Rec) error {
 		})
 		return mustFailAt(n, "confirm-responder")
 	case 2:
-		if !c.Confirm {
+		if !both {
 			return nil
 		}
-		n := runKX(ua, ub, idA, idB, idA, hid, c.Klen, true, seedA, seedB, func(s string, v []byte) []byte {
+		n := runKX(ua, ub, idA, idB, idA, hid, c.Klen, true, true, seedA, seedB, func(s string, v []byte) []byte {
 			if s == "SA" {
 				return flip(v)
 			}
@@ -300,24 +318,24 @@ func checkKX(c kxCase, r *h.Rec) error {
 		return mustFailAt(n, "confirm-initiator")
 	case 3:
 		other := otherUID(idA, int(c.Seed%4), c.Seed)
-		n := runKX(ua, ub, idA, idB, other, hid, c.Klen, c.Confirm, seedA, seedB, noTamper)
-		if c.Confirm {
+		n := runKX(ua, ub, idA, idB, other, hid, c.Klen, c.Confirm, confB, seedA, seedB, noTamper)
+		if both {
 			return mustFailAt(n, "confirm-responder")
 		}
 		return keysMustDiffer(n)
 	case 4:
-		n := runKX(ua, ub, idA, idB, idA, hid, c.Klen, c.Confirm, seedA, seedB, func(s string, v []byte) []byte {
+		n := runKX(ua, ub, idA, idB, idA, hid, c.Klen, c.Confirm, confB, seedA, seedB, func(s string, v []byte) []byte {
 			if s == "RA" {
 				return double(v)
 			}
 			return v
 		})
-		if c.Confirm {
+		if both {
 			return mustFailAt(n, "confirm-responder")
 		}
 		return keysMustDiffer(n)
 	case 5:
-		n := runKX(ua, ub, idA, idB, idA, hid, c.Klen, c.Confirm, seedA, seedB, func(s string, v []byte) []byte {
+		n := runKX(ua, ub, idA, idB, idA, hid, c.Klen, c.Confirm, confB, seedA, seedB, func(s string, v []byte) []byte {
 			if s == "RA" {
 				return malformed(v)
 			}
@@ -325,7 +343,7 @@ func checkKX(c kxCase, r *h.Rec) error {
 		})
 		return mustFailAt(n, "respond")
 	case 6:
-		n := runKX(ua, ub, idA, idB, idA, hid, c.Klen, c.Confirm, seedA, seedB, func(s string, v []byte) []byte {
+		n := runKX(ua, ub, idA, idB, idA, hid, c.Klen, c.Confirm, confB, seedA, seedB, func(s string, v []byte) []byte {
 			if s == "RB" {
 				return malformed(v)
 			}
@@ -333,13 +351,13 @@ func checkKX(c kxCase, r *h.Rec) error {
 		})
 		return mustFailAt(n, "confirm-responder")
 	case 7:
-		n := runKX(ua, ub, idA, idB, idA, hid, c.Klen, c.Confirm, seedA, seedB, func(s string, v []byte) []byte {
+		n := runKX(ua, ub, idA, idB, idA, hid, c.Klen, c.Confirm, confB, seedA, seedB, func(s string, v []byte) []byte {
 			if s == "RB" {
 				return double(v)
 			}
 			return v
 		})
-		if c.Confirm {
+		if both {
 			return mustFailAt(n, "confirm-responder")
 		}
 		return keysMustDiffer(n)
